@@ -47,6 +47,14 @@ func (h *memory) GetLine(i int) (string, error) {
 		return "", nil
 	}
 
+	if i < 0 {
+		return "", errNegativeIndex
+	}
+
+	if i >= len(h.items) {
+		return "", errOutOfRangeIndex
+	}
+
 	return h.items[i], nil
 }
 
